@@ -601,15 +601,38 @@ func (s *Store[K, V]) removeEntry(entry *Entry[K, V], reason RemoveReason) {
 
 	if reason == EXPIRED {
 		// entry might updated already
-		// update expire filed are protected by shard mutex
+		// update expire filed are protected by shard mutex: decide under that
+		// mutex and take the entry out of the map in the same critical section,
+		// so a concurrent SetWithTTL either comes first (the entry stays) or
+		// finds the key gone (and stores a fresh entry) - it is never undone
+		shard.mu.Lock()
 		if expire := entry.expire.Load(); expire == 0 {
 			// the deadline was dropped meanwhile: nothing to expire
+			shard.mu.Unlock()
 			return
 		} else if expire > s.timerwheel.clock.NowNano() {
 			// still alive: the wheel already unlinked it, put it back
+			shard.mu.Unlock()
 			s.timerwheel.schedule(entry)
 			return
 		}
+		deleted := shard.delete(entry)
+		shard.mu.Unlock()
+		entry.flag.SetRemoved(true)
+		if prev := entry.meta.prev; prev != nil {
+			s.policy.Remove(entry, false)
+		}
+		if entry.meta.wheelPrev != nil {
+			s.timerwheel.deschedule(entry)
+		}
+		if deleted {
+			k, v := entry.key, entry.value
+			if s.removalListener != nil {
+				s.removalListener(k, v, reason)
+			}
+			s.postDelete(entry)
+		}
+		return
 	}
 	entry.flag.SetRemoved(true)
 
@@ -621,8 +644,8 @@ func (s *Store[K, V]) removeEntry(entry *Entry[K, V], reason RemoveReason) {
 	}
 
 	switch reason {
-	case EVICTED, EXPIRED:
-		if reason == EVICTED && (!entry.flag.IsFromNVM() || entry.dirty.Load()) && s.secondaryCache != nil {
+	case EVICTED:
+		if (!entry.flag.IsFromNVM() || entry.dirty.Load()) && s.secondaryCache != nil {
 			var rn float32 = 1
 			if s.probability < 1 {
 				rn = s.rg.Float32()
